@@ -7,26 +7,14 @@
   same request lines followed by ` | ` and the implementation's reply; tools/check.py compares.
 -/
 import SmoothModel
-import Driver.Ops
-import Driver.Audit
+import Driver.All
 
 open Scalar Lin
 
 def processLine (line : String) : String :=
   let toks := (line.trimAscii.toString.splitOn " ").filter (· ≠ "")
   match toks with
-  | op :: grp :: prec :: args =>
-    if prec == "f64" then
-      match Drv.runOp (α := Float) op grp (args.toArray.map Drv.Bits.ofHex) with
-      | .ok out => " ".intercalate (out.toList.map Drv.Bits.toHex)
-      | .error e => "ERR " ++ e
-    else if prec == "f32" then
-      match Drv.runOp (α := Float32) op grp (args.toArray.map Drv.Bits.ofHex) with
-      | .ok out => " ".intercalate (out.toList.map Drv.Bits.toHex)
-      | .error e => "ERR " ++ e
-    else if prec == "f64a" || prec == "f32a" then
-      Drv.runAudit op grp prec args.toArray
-    else "ERR bad-prec"
+  | op :: grp :: prec :: args => Drv.runAll op grp prec args.toArray
   | _ => "ERR bad-line"
 
 partial def loop (hin : IO.FS.Stream) (hout : IO.FS.Stream) : IO Unit := do
